@@ -63,7 +63,8 @@ def run(ctx):
     for i in rf.all_nodes():
         if rf.N(i)['k'] == 'DeclStmt':
             for d in rf.N(i)['decls']:
-                if d.get('init') is not None and any(rf.bcallee(j) == 'cppcms::impl::crc32_calc::checksum' for j in rf.calls(d['init'])):
+                # the computed CRC: a local whose (only) value is crc_calc.checksum() itself - not a mixture with the stored one
+                if d.get('init') is not None and rf.N(rf.strip(d['init']))['k'] == 'CXXMemberCallExpr' and rf.bcallee(rf.strip(d['init'])) == 'cppcms::impl::crc32_calc::checksum' and len(rf.defs_of_var(d['ref'])) == 1:
                     realcrc.add(d['ref'])
 
     def crc_ok(atom, pol):
